@@ -287,6 +287,7 @@ func writeIfChanged(path, content string) {
 // overlay writes virtual-clock copies of the files that read the wall clock and an overlay.json that also
 // injects the hooks file into package absnfs.
 func overlay(repo, outdir, hooks string) error {
+	outdir, _ = filepath.Abs(outdir)
 	os.MkdirAll(outdir, 0o755)
 	repl := map[string]string{}
 	absRepo, _ := filepath.Abs(repo)
